@@ -256,7 +256,7 @@ pub fn c07_native<G: AffineRepr + 'static>(case: &crate::scen_c07::BatchCase, se
     let mut out: Checks = vec![];
     let k = case.instances.len();
     let maxpad = case.instances.iter().map(|i| i.shape.padded()).max().unwrap_or(1);
-    let pc = PedersenGens::<G>::default();
+    let pc = crate::r1cs::pc_for::<G>(&case.name, seed);
     let bp = BulletproofGens::<G>::new(maxpad, 1);
     // (a)
     let mut shrs = vec![];
@@ -406,7 +406,7 @@ pub fn c09_native<G: AffineRepr + 'static>(shape: &crate::r1cs::Shape, seed: u64
     merlin::vlog::reset();
     let mut out: Checks = vec![];
     let pad = shape.padded();
-    let pc = PedersenGens::<G>::default();
+    let pc = crate::r1cs::pc_for::<G>(&shape.name, seed);
     let bp = BulletproofGens::<G>::new(pad, 1);
     let shr = new_shared::<G>(shape, &Default::default(), Box::new(PlainVals::<G::ScalarField>::new(HashMap::new(), seed)));
     let p_from = merlin::vlog::len();
@@ -514,7 +514,7 @@ pub fn diff_native<G: AffineRepr + 'static>(shape: &crate::r1cs::Shape, seed: u6
     let mut out: Checks = vec![];
     let pad = shape.padded();
     let (n1, n2) = shape.gates();
-    let pc = PedersenGens::<G>::default();
+    let pc = crate::r1cs::pc_for::<G>(&shape.name, seed);
     let bp = BulletproofGens::<G>::new(pad, 1);
     let (Gs, Hs) = (bp.share(0).verif_G(pad), bp.share(0).verif_H(pad));
     let (B, Bb) = (pc.B, pc.B_blinding);
@@ -587,10 +587,12 @@ pub fn diff_native<G: AffineRepr + 'static>(shape: &crate::r1cs::Shape, seed: u6
     let cap = pad.max(2);
     let gens = BulletproofGens::<G>::new(cap, parties);
     let mut gens_ok = true;
+    // the crate's default Pedersen pair (the scenario itself may run on an independent pair, see `pc_for`)
+    let dpc = PedersenGens::<G>::default();
     for j in 0..parties {
         let (rg, rh, rb, rbb) = ref_generators::<G>(j as u32, cap);
         gens_ok &= gens.share(j).verif_G(cap) == rg && gens.share(j).verif_H(cap) == rh;
-        gens_ok &= rb == pc.B && rbb == pc.B_blinding;
+        gens_ok &= rb == dpc.B && rbb == dpc.B_blinding;
     }
     out.push(("generators and Pedersen bases equal the pinned derivation (labels 'G'/'H' || LE32(party), SHA3-512 -> ChaCha20 -> rand point) for parties 0..2".into(), gens_ok));
     out
